@@ -199,7 +199,7 @@ func (r *Recorder) Finish(w *World, info propInfo, tier string, seed int, outDir
 	os.Remove(reportPath)
 	if len(bad) > 0 {
 		for _, o := range bad {
-			fmt.Printf("%s %s: %s [%s] %s\n", strings.ToUpper(o.Verdict), o.Pos, o.Key(), r.Property, o.Detail)
+			fmt.Printf("%s %s: %s [%s] %s\n", strings.ToUpper(o.Verdict), o.Pos, clip(o.Key(), 200), r.Property, clip(o.Detail, 700))
 		}
 		rep := map[string]any{"property": r.Property, "tier": tier, "repo": w.RepoDir, "violations": bad}
 		if b, err := json.MarshalIndent(rep, "", " "); err == nil {
@@ -263,4 +263,12 @@ func (r *Recorder) Finish(w *World, info propInfo, tier string, seed int, outDir
 		return 1
 	}
 	return 0
+}
+
+func clip(s string, n int) string {
+	s = strings.ReplaceAll(s, "\n", " ")
+	if len(s) > n {
+		return s[:n] + "…"
+	}
+	return s
 }
